@@ -154,7 +154,12 @@ def run_cases_local(mod, cases, indices, out, tier='quick'):
 def worker_main(argv):
     prop_id, tier, seed, k, n, outfile = argv[0], argv[1], int(argv[2]), int(argv[3]), int(argv[4]), argv[5]
     mod = load_monitor(prop_id)
-    cases = mod.gen_cases(tier, seed)
+    shared = os.path.join(os.environ.get('PV_WORK', ''), 'cases.json')
+    if getattr(mod, 'SHARE_CASES', False) and os.path.exists(shared):
+        with open(shared) as fh:
+            cases = json.load(fh)  # enumerated once by the main process (expensive de-duplicated enumeration)
+    else:
+        cases = mod.gen_cases(tier, seed)
     with open(outfile, 'w') as out:
         if isinstance(cases, list):
             run_cases_local(mod, cases, range(k, len(cases), n), out, tier)
@@ -205,6 +210,11 @@ def check(mod, prop_id, tier, seed, nworkers, write_evidence=True):
     t0 = time.time()
     os.environ.setdefault('PYTHONHASHSEED', '0')
     cases = mod.gen_cases(tier, seed)
+    work = tempfile.mkdtemp(prefix='pv-%s-' % prop_id)
+    if getattr(mod, 'SHARE_CASES', False):
+        cases = list(cases)
+        with open(os.path.join(work, 'cases.json'), 'w') as fh:
+            json.dump(cases, fh)
     if not isinstance(cases, list):
         first, ncases = None, 0
         for case in cases:
@@ -215,7 +225,6 @@ def check(mod, prop_id, tier, seed, nworkers, write_evidence=True):
     else:
         ncases = len(cases)
     nworkers = max(1, min(nworkers, ncases))
-    work = tempfile.mkdtemp(prefix='pv-%s-' % prop_id)
     env = dict(os.environ)
     env['PYTHONPATH'] = VERIF + os.pathsep + env.get('PYTHONPATH', '')
     env['PYTHONHASHSEED'] = '0'
